@@ -7,7 +7,9 @@ CONSTANT TsPool = {1, 2}
 CONSTANT Servers <- ServersImpl
 CONSTANT NewIds <- NewIdsImpl
 CONSTANT IdLess <- IdLessImpl
-CONSTANT BaseNames = {"bare", "public", "mainline", "invite", "nopl"}
+CONSTANT AllSubsets = FALSE
+CONSTANT Triples = TRUE
+CONSTANT BaseNames = {"public", "mainline"}
 INVARIANT InvIdentity
 INVARIANT Emit
 CHECK_DEADLOCK FALSE
